@@ -366,21 +366,38 @@ func (s *Applier) verifyAnchoringTimeRange(from, until int64, anchor uint64) err
 		return nil
 	}
 
-	if from > int64(anchor) {
+	// the anchoring time is unsigned: compare without converting it to a signed number
+	if from > 0 && uint64(from) > anchor {
 		return fmt.Errorf("anchor from time is greater then anchoring time")
 	}
 
-	if s.getAnchorUntil(from, until) < int64(anchor) {
+	if s.isExpired(from, until, anchor) {
 		return fmt.Errorf("anchor until time is less then anchoring time")
 	}
 
 	return nil
 }
 
-func (s *Applier) getAnchorUntil(from, until int64) int64 {
-	if from != 0 && until == 0 {
-		return from + int64(s.MaxOperationTimeDelta)
+// isExpired reports whether the anchoring time lies after anchor until; a missing anchor until defaults to
+// anchor from plus the maximum operation time delta (computed without overflow).
+func (s *Applier) isExpired(from, until int64, anchor uint64) bool {
+	if until != 0 || from == 0 {
+		return until < 0 || uint64(until) < anchor
 	}
 
-	return until
+	delta := uint64(s.MaxOperationTimeDelta)
+
+	if from < 0 {
+		magnitude := uint64(-(from + 1)) + 1
+
+		return delta < magnitude || delta-magnitude < anchor
+	}
+
+	expiry := uint64(from) + delta
+	if expiry < delta {
+		// beyond the range of anchoring times: never expires
+		return false
+	}
+
+	return expiry < anchor
 }
